@@ -1,0 +1,17 @@
+//go:build verif
+
+// Contracts for the retry queue, checked by /verif/kbv (build tag "verif"). Comments only.
+
+package retry
+
+//@ func AsyncFifoRetry.MinRevision() (result)
+//@   assumed
+//@   pure
+
+//@ func AsyncFifoRetry.Append(event)
+//@   assumed
+//@   pure
+
+//@ func AsyncFifoRetry.Size() (result)
+//@   assumed
+//@   pure
